@@ -133,15 +133,14 @@ MultiRemove(L, r, t) ==
 Clear(L, r, t) ==
   {[L |-> [k \in DOMAIN L |-> NoE], inv |-> {}, invopt |-> {InvNote(L, k) : k \in {x \in DOMAIN L : Present(L, x)}}, devs |-> {}]}
 
-\* compute family: an atomic read-modify-write of the resident, unexpired value.
-\* "fail" (somebody else holds a reference to the value) has no effect.
-\* Known finding FC1: compute does not look at the expiry and mutates / returns an expired value.
+\* compute family: an atomic read-modify-write of the resident, unexpired value (an expired
+\* entry is not there for compute either).  "fail" (somebody else holds a reference to the
+\* value) has no effect.
 Compute(L, r, t) ==
   LET k == r.key IN
   CASE r.res = "ok" ->
-         IF Present(L, k) /\ (r.hasval => r.val = <<L[k].wid, L[k].n + 1>>)
-           THEN IF ~CertExp(L[k], t) THEN {Out(MayRefresh([L EXCEPT ![k].n = @ + 1], k, t))}
-                ELSE IF Dev("FC1") THEN {OutD(MayRefresh([L EXCEPT ![k].n = @ + 1], k, t), "FC1")} ELSE {}
+         IF Present(L, k) /\ (r.hasval => r.val = <<L[k].wid, L[k].n + 1>>) /\ ~CertExp(L[k], t)
+           THEN {Out(MayRefresh([L EXCEPT ![k].n = @ + 1], k, t))}
            ELSE {}
     [] r.res = "nf" -> IF MissOK(L, k, t) THEN {Out(L)} ELSE {}
     [] r.res = "fail" -> {Out(L)}
@@ -149,12 +148,10 @@ Compute(L, r, t) ==
 
 \* entry(k).or_insert*(v): occupied -> the resident unexpired value, nothing inserted (and a
 \* lazy default is not evaluated); vacant -> v is inserted and returned.
-\* Known finding F14: an expired resident entry counts as occupied and is returned.
 EntryOp(L, r, t) ==
   LET k == r.key IN
-  (IF Present(L, k) /\ r.res = ValOf(L[k]) /\ (r.lazy => ~r.called)
-     THEN IF ~CertExp(L[k], t) THEN {Out(MayRefresh(L, k, t))}
-          ELSE IF Dev("F14") THEN {OutD(MayRefresh(L, k, t), "F14")} ELSE {}
+  (IF Present(L, k) /\ r.res = ValOf(L[k]) /\ (r.lazy => ~r.called) /\ ~CertExp(L[k], t)
+     THEN {Out(MayRefresh(L, k, t))}
      ELSE {})
   \cup
   (IF MissOK(L, k, t) /\ r.res = <<r.wid, 0>> /\ (r.lazy => r.called)
